@@ -300,7 +300,7 @@ def program_case(rng, tier, idx):
         elif shape == "old-use":
             name0 = funcs_x[0][0]
             use = r.choice([f"y = y + {coef_mul(r.choice(COEFS), 'x*' + name0)}", f"y = y + {coef_mul(r.choice(COEFS), name0)}",
-                            f"y = y + x - {name0}"])
+                            f"y = y + x - {name0}"] if not (fam == "TruncNormal" and tier == "quick") else [f"y = y + {name0}"])
             lines = [use] + lines
             inits[name0] = r.choice([F(1, 2), F(1), F(-1), F(2)])
         elif shape == "simult" and len(lines) >= 2:
@@ -357,10 +357,13 @@ def program_case(rng, tier, idx):
     exp_x = [v for v, f in funcs_x if f == "Exp"]
     fz = [v for v, _ in funcs_z]
 
+    # TruncNormal: sympy needs > 40 s for derivatives of the erf-based cf, so no powers of the draw itself in the quick tier
+    allow_id = not (fam == "TruncNormal" and tier == "quick")
+
     def rand_mono(maxdeg, force=None):
         """monomial (dict) over x, its functional variables, z's, constants"""
         m = {}
-        pool = list(fx) + (["x"] if True else []) + fz + ([zname] if zname else []) + consts
+        pool = list(fx) + (["x"] if allow_id else []) + fz + ([zname] if zname else []) + consts
         if shape == "mix":
             pool = [p for p in pool]
         deg = r.choice(range(1, maxdeg + 1))
@@ -425,7 +428,8 @@ def program_case(rng, tier, idx):
     cands.append({"y": 2})
     for v in fx[:2]:
         cands.append({v: r.choice([1, 2])})
-        cands.append({"x": 1, v: 1})
+        if allow_id:
+            cands.append({"x": 1, v: 1})
     if len(fx) >= 2 and (shape == "mix" or (fx[0] in exp_x) == (fx[1] in exp_x)):
         cands.append({fx[0]: 1, fx[1]: 1})
     if fz:
